@@ -64,6 +64,7 @@ class Opts:
         self.pub_bases = False
         self.p_priv_item = None      # probability of a private type / enum / function (default: p_priv)
         self.static_fns = True
+        self.p_unnamed = 0.06        # probability that an array-typed field is written `_: [T; N]`
         self.p_underscore = 0.0      # probability that a function gets a `_`-prefixed ("internal") name
         self.int_args_only = False   # arguments / returns that travel in one integer register (O4 execution)
         self.p_ptr_forward = 0.3
@@ -316,7 +317,7 @@ class WorldGen:
                 if need % a == 0: need = 1
             r = rng.random()
             if r < o.p_explicit_addr:
-                gap = need + (a if (a and rng.random() < 0.2) else 0)
+                gap = need + (a * rng.choice([1, 1, 2, 3]) if (a and rng.random() < 0.25) else 0)
                 if gap > 0:
                     nregions += 1; sole_align = 1
                 off += gap
@@ -335,6 +336,9 @@ class WorldGen:
                 nregions += 1; sole_align = 1
                 off += g
             pubf = rng.random() > o.p_priv or (is_base and o.pub_bases)
+            if not is_base and arr and rng.random() < o.p_unnamed:
+                # an unnamed field of array type (`_: [u32; 3]`): it is laid out like any other field and emitted as `_field_<offset>`
+                fname = '_'; pubf = False
             stmts.append(field(pubf, fname, t, fat))
             if emitted:
                 nregions += 1; sole_align = a
